@@ -330,6 +330,13 @@ def skolem_valid(pred, n, what):
     return s.check() == z3.unsat
 
 
+def reg_witness(c, w):
+    """witness indices take part in the instantiation of registered universal facts"""
+    if not hasattr(c, "skolems"):
+        c.skolems = {}
+    c.skolems[tid(w)] = w
+
+
 def arr_all(arr):
     """builtin all()/np.all over a bool array -> bool|SBool"""
     if arr.items is not None:
@@ -344,6 +351,7 @@ def arr_all(arr):
     # symbolic: A <-> forall i. b(i);  ~A -> witness
     A = z3.Bool(c.fresh("all"))
     w = z3.Int(c.fresh("w_all"))
+    reg_witness(c, w)
     c.assume(z3.Implies(z3.Not(A), z3.And(w >= 0, w < zi(n), z3.Not(zb(bterm(arr.at(w)))))))
     c.universals.append((A, lambda i: bterm(arr.at(i)), n))
     return SBool(A)
@@ -358,6 +366,7 @@ def arr_any(arr):
         return False
     A = z3.Bool(c.fresh("any"))
     w = z3.Int(c.fresh("w_any"))
+    reg_witness(c, w)
     c.assume(z3.Implies(A, z3.And(w >= 0, w < zi(n), zb(bterm(arr.at(w))))))
     c.universals.append((z3.Not(A), lambda i: bnot(bterm(arr.at(i))), n))
     return SBool(A)
